@@ -69,7 +69,7 @@ func (root *Root) ResolveExecutable(
 
 	op := exe.Ops[opName]
 	if op == nil {
-		if len(exe.Ops) == 1 {
+		if len(exe.Ops) == 1 && len(opName) == 0 {
 			for _, o := range exe.Ops {
 				op = o
 				break
